@@ -34,6 +34,7 @@ fn main() {
         "C15" | "statedb" => c15::run(seed, n, replay, &mut out),
         "C19" | "prestate" => c19::run(seed, n, replay, &mut out),
         "bundle" => bundle::run(seed, n, replay, &mut out),
+        "C29" | "C30" => c29::run(seed, n, replay, &mut out, a[1].as_str()),
         other => {
             eprintln!("unknown component {other}");
             std::process::exit(2);
